@@ -113,6 +113,51 @@ def one_case(ctx, index, rng: random.Random):
              sample={"shape": shape, "axes": given, "total": float(h.total), "projection": np.asarray(p.frequencies).ravel()[:8].tolist()})
 
 
+def transformed_case(ctx, index, rng: random.Random):
+    """Projections of the coordinate-transformed classes: the mapped special class and marginal contents."""
+    from physt import special_histograms as sp
+
+    rec = ctx.rec
+    rec.mon("C09.chain")
+    kind = rng.choice(["polar", "spherical", "cylindrical"])
+    n = rng.randint(3, 40)
+    pts = np.array([[rng.uniform(-3, 3) for _ in range(3)] for _ in range(n)])
+    w = np.asarray([rng.randint(1, 16) / 4 for _ in range(n)], dtype=float)
+    with warnings.catch_warnings():
+        warnings.simplefilter("ignore")
+        if kind == "polar":
+            h = sp.polar(pts[:, 0], pts[:, 1], radial_bins=np.array([0.0, 1.0, 2.5, 5.0]), phi_bins=rng.choice([3, 4, 8]), weights=w)
+            cmap = {(0,): "RadialHistogram", (1,): "AzimuthalHistogram"}
+        elif kind == "spherical":
+            h = sp.spherical(pts, radial_bins=np.array([0.0, 2.0, 6.0]), theta_bins=rng.choice([2, 4]), phi_bins=rng.choice([3, 4]), weights=w)
+            cmap = {(1, 2): "SphericalSurfaceHistogram", (0,): "RadialHistogram", (0, 1): "Histogram2D", (2,): "Histogram1D"}
+        else:
+            h = sp.cylindrical(pts, rho_bins=np.array([0.0, 1.5, 5.0]), phi_bins=rng.choice([3, 4]), z_bins=np.array([-3.5, 0.0, 1.0, 3.5]), weights=w)
+            cmap = {(0,): "RadialHistogram", (1,): "AzimuthalHistogram", (0, 1): "PolarHistogram", (1, 2): "CylindricalSurfaceHistogram", (0, 2): "Histogram2D", (2,): "Histogram1D"}
+        axes = rng.choice(list(cmap))
+        given = [h.axis_names[i] if rng.random() < 0.5 else i for i in axes]
+        if rng.random() < 0.5:
+            given = given[::-1]
+        try:
+            p = h.projection(*given)
+        except Exception as e:
+            rec.fail(monitor="C09.chain", op=f"{kind}.projection{axes}", symptom=f"projection of a transformed histogram raised {type(e).__name__}", diff=["raised"], detail={"error": str(e)[:160]})
+            return
+    with attach.quiet():
+        if type(p).__name__ != cmap[axes]:
+            rec.fail(monitor="C09.chain", op=f"{kind}.projection{axes}", symptom="projection does not have the matching (special) class", diff=["class"],
+                     detail={"got": type(p).__name__, "expected": cmap[axes]})
+        dropped = tuple(i for i in range(h.ndim) if i not in axes)
+        if not (np.array_equal(np.asarray(p.frequencies, dtype=float), np.asarray(h.frequencies, dtype=float).sum(axis=dropped))
+                and np.array_equal(np.asarray(p.errors2, dtype=float), np.asarray(h.errors2, dtype=float).sum(axis=dropped))):
+            rec.fail(monitor="C09.chain", op=f"{kind}.projection{axes}", symptom="projection of a transformed histogram is not the marginal", diff=["frequencies", "errors2"], detail={})
+        if tuple(p.axis_names) != tuple(h.axis_names[i] for i in axes):
+            rec.fail(monitor="C09.chain", op=f"{kind}.projection{axes}", symptom="axis names of the projection are not those of the kept axes in original order", diff=["axis_names"],
+                     detail={"got": p.axis_names})
+    rec.case(["transformed", kind, axes, pts.tolist()], True, cls=f"transformed/{kind}")
+
+
 def run(ctx):
     attach_monitors()
     ctx.run_cases(ctx.scale(400, 3500), one_case)
+    ctx.run_cases(ctx.scale(60, 400), transformed_case, salt="transformed")
